@@ -1005,7 +1005,11 @@ class AstEval:
                     if name[0] != "_":
                         self.sym_table[name] = value
             else:
-                self.sym_table[imp.name if imp.asname is None else imp.asname] = getattr(mod, imp.name)
+                try:
+                    value = getattr(mod, imp.name)
+                except AttributeError:
+                    raise ImportError(f"cannot import name '{imp.name}' from '{arg.module}'") from None
+                self.sym_table[imp.name if imp.asname is None else imp.asname] = value
 
     async def ast_if(self, arg):
         """Execute if statement."""
